@@ -152,7 +152,7 @@ class TextObj(str):
         return not self.__eq__(other)
 
     def __hash__(self):
-        return id(self)
+        return str.__hash__(self)       # like plasTeX text nodes (str subclasses): equal text, equal hash
 
 
 def _rebuild_textobj(text):
@@ -1600,7 +1600,7 @@ class Interp:
                     return o
             r = m.getattr_static(base, attr)
             return self._from_model(r)
-        if isinstance(base, M.External) and base.name in ('re', 'operator', 'os', 'os.path', 'glob', 'posixpath', 'string', 'itertools') and not attr.startswith('_') \
+        if isinstance(base, M.External) and base.name in ('re', 'operator', 'os', 'os.path', 'glob', 'posixpath', 'string', 'itertools', 'html') and not attr.startswith('_') \
            and not (base.name == 'string' and attr != 'Template'):
             return M.External('%s.%s' % (base.name, attr))
         if isinstance(base, M.External) and base.name == 'sys' and attr == 'maxsize':
@@ -1928,8 +1928,8 @@ class Interp:
                 if other is TOP or isinstance(other, Sym) and other.truthy is None:
                     return None
                 return not isinstance(op, ast.Is)
-            if isinstance(a, (bool, M.ClassInfo)) and isinstance(b, (bool, M.ClassInfo)):
-                return (a is b) == isinstance(op, ast.Is)
+            if isinstance(a, (bool, M.ClassInfo, type)) and isinstance(b, (bool, M.ClassInfo, type)):
+                return (a is b) == isinstance(op, ast.Is)       # (type objects: builtin types and the checkers' stand-in classes)
             if isinstance(a, (list, dict)) and isinstance(b, (list, dict)):
                 return (a is b) == isinstance(op, ast.Is)      # identity of tracked containers
             if isinstance(a, (Obj, TextObj)) or isinstance(b, (Obj, TextObj)):
@@ -2060,6 +2060,9 @@ class Interp:
                 if self.precise_exc:
                     s.env['__exc'] = 'AttributeError'
                 return TOP
+        if fname == 'hasattr' and 'hasattr' not in s.env and len(args) == 2 and isinstance(args[1], str) and _plain(args[1]) and _plain(args[0]) \
+           and not isinstance(args[0], (TextObj, TokStr)):
+            return hasattr(args[0], args[1])        # a Python constant (str, number, list, dict, None)
         if fname == 'iter' and 'iter' not in s.env and len(args) == 1 and not kwargs:
             if isinstance(args[0], (list, tuple)) or (isinstance(args[0], str) and not isinstance(args[0], M._StringLetters)):
                 return Iter(args[0])
@@ -2124,6 +2127,35 @@ class Interp:
                 if self.precise_exc:
                     s.env['__exc'] = type(e).__name__
                 return TOP
+        if isinstance(fval, M.External) and fval.name == 're.sub' and len(args) == 3 and isinstance(args[0], str) and isinstance(args[2], str) \
+           and _plain(args[0]) and _plain(args[2]) and all(_plain(v) for v in kwargs.values()):
+            # a replacement that is not a constant (a function): decided when the pattern does not occur at all,
+            # or when the function is a lambda / nested function of the analysed code with one outcome per match
+            try:
+                if _re_mod.search(args[0], args[2], kwargs.get('flags', 0)) is None:
+                    return args[2]
+            except Exception:
+                return TOP
+            if isinstance(args[1], Sym) and isinstance(args[1].attrs.get('node'), ast.FunctionDef):
+                class _Abort(Exception):
+                    pass
+
+                def cb(mo):
+                    r = self.call_value(args[1], [mo], s, n.lineno)
+                    if r is None or not isinstance(r[0], str) or isinstance(r[0], M._StringLetters):
+                        raise _Abort()
+                    return str(r[0])
+                try:
+                    return _re_mod.sub(args[0], cb, args[2], **kwargs)
+                except _Abort:
+                    return TOP
+                except Exception:
+                    return TOP
+            return TOP
+        if isinstance(fval, M.External) and fval.name in ('html.escape', 'html.unescape') and args and all(isinstance(a, (str, bool, int)) for a in args) \
+           and not isinstance(args[0], M._StringLetters) and all(isinstance(v, (bool, int)) for v in kwargs.values()):
+            import html as _html_mod
+            return getattr(_html_mod, fval.name[5:])(*[str(a) if isinstance(a, str) else a for a in args], **kwargs)
         if isinstance(fval, M.External) and fval.name in ('os.path.join', 'os.path.basename', 'os.path.dirname', 'os.path.splitext', 'os.path.split',
                                                           'os.path.normpath') and args and all(isinstance(a, str) for a in args) and not kwargs:
             import posixpath as _pp
@@ -2177,6 +2209,10 @@ class Interp:
         if isinstance(fval, tuple) and len(fval) == 3 and fval[0] == 'boundmethod':
             _, recv, meth = fval
             self._pending_exc = None
+            if isinstance(recv, _re_mod.Pattern) and meth == 'sub' and len(args) == 2 and not _plain(args[0]) and isinstance(args[1], str) \
+               and _plain(args[1]) and not kwargs:
+                # compiled pattern, replacement function: decided when nothing matches
+                return args[1] if recv.search(args[1]) is None else TOP
             r = self._builtin_method(recv, meth, args, kwargs)
             if self._pending_exc and self.precise_exc:
                 s.env['__exc'] = self._pending_exc
@@ -2302,7 +2338,7 @@ _NOTHROW_CALLS = {'isinstance', 'issubclass', 'type', 'id', 'len', 'repr', 'str'
 
 import re as _re_mod
 import string as _string_mod
-_REAL_TYPES = (_re_mod.Pattern, _string_mod.Template)
+_REAL_TYPES = (_re_mod.Pattern, _string_mod.Template, _re_mod.Match)
 
 
 def _plain(v):
